@@ -19,7 +19,7 @@ def label(u: Universe, prefix: str, idx: int, key: str) -> str:
 
 class C02(CtxCheck):
     id = "C02"
-    aspects = {"visible"}
+    aspects = {"visible", "generated-scope"}
     max_ctx = 4
     assumptions = [
         "<= 4 contexts (<= 2 roots), types A/B, names default/x, multi-type registration (A,B)",
